@@ -108,12 +108,21 @@ func (mi *MessageInfo) initOneofFieldCoders(od protoreflect.OneofDescriptor, si 
 		srcinfo.funcs.merge(dstp, srcp, srcinfo, opts)
 	}
 	if needIsInit {
-		first.funcs.isInit = func(p pointer, _ *coderFieldInfo) error {
+		isInit := func(p pointer, _ *coderFieldInfo) error {
 			p, info := getInfo(p)
 			if info == nil || info.funcs.isInit == nil {
 				return nil
 			}
 			return info.funcs.isInit(p, info)
+		}
+		// Set isInit on every member, not only on the first one: the unmarshal
+		// loop consults the initialized bit reported by a field's unmarshal
+		// function only for fields that have an isInit function, so a partial
+		// message member other than the first would otherwise leave the parent
+		// marked as initialized. The function dispatches on the active member,
+		// so it is correct (if redundant) for any member.
+		for i, lim := 0, fields.Len(); i < lim; i++ {
+			mi.coderFields[fields.Get(i).Number()].funcs.isInit = isInit
 		}
 	}
 }
